@@ -111,6 +111,22 @@ Section Eval.
   Definition delay_corr_at (d : solv) (f : Q) : C := eval (delay_ival d f).
 End Eval.
 
+(* ------------------------------------------------------------------ hold-type products (K, B): the solution in force *)
+(* calc_delay_correction / calc_bandpass_correction return CategoricalData(corrections, sensor.events): dump t gets
+   the correction of the segment containing t.  On the events the data set sees (Applycal.seen: strictly increasing
+   relative dumps) that is the last solution at or before t; before the first solution, the first one
+   (sensor_to_categorical forces events[0] = 0 when there is no initial value). *)
+Fixpoint last_le {A} (l : list (Z * A)) (t : Z) (acc : option A) : option A :=
+  match l with
+  | [] => acc
+  | e :: r => if Z.leb (fst e) t then last_le r t (Some (snd e)) else last_le r t acc
+  end.
+Definition in_force {A} (l : list (Z * A)) (t : Z) : option A :=
+  match last_le l t None with
+  | Some v => Some v
+  | None => option_map snd (hd_error l)
+  end.
+
 (* ------------------------------------------------------------------ which products calc_correction applies *)
 (* one requested product: its name (an id), whether it is K/B, its stream's frequencies, and per input the result of
    cache.get(sensor_prefix + inp): None = KeyError *)
@@ -215,6 +231,12 @@ Definition wire_131 (x : sx) : sx :=
                                 end) (to_list reqs) in
       match select_products (to_bool skip) reqs with
       | Some sel => L [L (map (fun p => I (fst p)) sel); L (map (fun p => I (fst p)) (spec_selected reqs []))]
+      | None => L []
+      end
+  (* (5 a b t ((dump id) ...)) -> (id) | ()   the solution in force at relative dump t of a data set holding [a, b) *)
+  | L [I 5; I a; I b; I t; evs] =>
+      match in_force (seen a b (map (fun e => match e with L [I d; I k] => (d, k) | _ => (0%Z, 0%Z) end) (to_list evs))) t with
+      | Some k => L [I k]
       | None => L []
       end
   | _ => sx_err
